@@ -29,7 +29,7 @@ ASSUMPTIONS = [
 ]
 
 CTXS = prog.CLS_NAMES
-POSITIONS = ["from", "join", "in", "cmp", "select", "cte", "insert_select", "create_as", "setop_left", "setop_right", "having_cmp"]
+POSITIONS = ["from", "join", "in", "not_in", "cmp", "select", "cte", "insert_select", "create_as", "setop_left", "setop_right", "having_cmp", "setop_in_from"]
 OUT = {"OT": ["tbl", "outer_t", None, None]}
 
 
@@ -54,6 +54,12 @@ def outer_program(cls, pos, inner, alias):
         steps = [["from_", [["src", "OT"]]], ["join", [q, ["enum", "JoinType", "left"]], {}, ["on", [["eq", OA, ["raw", 1]]]]], ["select", [OA]]]
     elif pos == "in":
         steps = [["from_", [["src", "OT"]]], ["select", [OA]], ["where", [["in", OA, q]]]]
+    elif pos == "not_in":
+        steps = [["from_", [["src", "OT"]]], ["select", [OA]], ["where", [["not", ["in", OA, q], "cls"]]]]
+    elif pos == "setop_in_from":
+        other = {"cls": "inherit", "sources": {}, "steps": [["from_", [["src", "OT"]]], ["select", [OA]]]}
+        so = dict(inner, steps=inner["steps"] + [["union_all", [["q", other]]]])
+        steps = [["from_", [["q", so]]], ["select", [["py", "*"]]]]
     elif pos == "cmp":
         steps = [["from_", [["src", "OT"]]], ["select", [OA]], ["where", [["gt", OA, q]]]]
     elif pos == "having_cmp":
@@ -91,6 +97,15 @@ def find_sub(hay, needle):
 
 
 def render(obj, cls, par):
+    if par == "str":
+        # the way users render: str(q) with the builder's own default context
+        return str(obj)
+    if par == "noarg":
+        # q.get_sql() without a context (set operations and DDL builders have no such form: str() is their default rendering)
+        try:
+            return obj.get_sql()
+        except TypeError:
+            return str(obj)
     if par:
         return prog.render(obj, cls, True)[0]
     return obj.get_sql(prog.sql_context(cls))
@@ -162,9 +177,11 @@ def check(case, pos, par):
         need_parens = cls not in ("mysql", "sqlite")
         alias = None
     else:
-        p = outer_program(cls, pos, inner, case["alias"])
-        need_parens = True
-        alias = case["alias"]
+        if pos == "setop_in_from" and (is_setop or case["ncols"] != 1):
+            return [("__na__", "")]
+        p = outer_program(cls, pos, inner, case["alias"] if pos != "setop_in_from" else None)
+        need_parens = True if pos != "setop_in_from" else cls not in ("mysql", "sqlite")
+        alias = case["alias"] if pos != "setop_in_from" else None
     try:
         outer = prog.build_program(p)
         s_out = render(outer, cls, par)
@@ -204,6 +221,11 @@ def check(case, pos, par):
                 why = "alias_missing"
                 continue
             if alias is None and nxt is not None and nxt.kind == "qid":
+                why = "alias_leaked"
+                continue
+        elif pos == "setop_in_from":
+            # the operand of the nested set operation must not be followed by any alias of its own
+            if nxt is not None and nxt.kind == "qid":
                 why = "alias_leaked"
                 continue
         else:
@@ -254,7 +276,7 @@ def run_shard(shard):
     def prop(case):
         nt = nontrivial(case)
         for pos in POSITIONS:
-            for par in (False, True):
+            for par in (False, True, "str", "noarg"):
                 c = dict(case, pos=pos, par=par)
                 res = check(case, pos, par)
                 if res and res[0][0].startswith("__"):
